@@ -22,7 +22,7 @@ for d in $V/selftest/mutants/*/; do
   case "$name" in *"${1:-}"*) ;; *) continue ;; esac
   prop=$(sed -n 1p "$d/expect.txt"); want=$(sed -n 2p "$d/expect.txt")
   (cd "$WT" && git apply "$d/patch.diff") || { echo "SELFTEST $name: patch does not apply"; fail=1; continue; }
-  out=$("$V/bin/govc" check -prop "$prop" -tier quick -repo "$WT" -verif "$SV" -noreplay 2>&1); rc=$?
+  out=$("${GOVC:-$V/bin/govc}" check -prop "$prop" -tier quick -repo "$WT" -verif "$SV" -noreplay 2>&1); rc=$?
   (cd "$WT" && git apply -R "$d/patch.diff")
   n=$((n+1))
   if [ $rc -eq 1 ] && echo "$out" | grep "failed obligation" | grep -qF "$want"; then
